@@ -358,7 +358,11 @@ TRUSTED_BASE = [
     'extraction: ExtrOcamlBasic only (bool, option, unit, list, prod, sumbool as OCaml natives); no Extract Constant',
     'OCaml 4.13.1 driver (driver/main.ml), Rust harness (harness/), Python generators and comparators (tools/)',
     'rustc/std (Vec, BTreeMap, BinaryHeap, sort_by stability), serde/serde_json: modelled, not verified',
-    'harness/src/state.rs (structure-preserving serde Serializer used for the state tie), harness/src/span.rs (user-defined dense region)',
+    'harness/src/state.rs (structure-preserving serde Serializer used for the state tie; nests the fields of tuple regions of arity >= 3), '
+    'harness/src/run.rs flat_tuple_h! (flat tuple regions presented as the nested pairs of Region/TupleN.v), harness/src/span.rs (user-defined '
+    'dense region; deterministic probes of D15-D17), harness/src/strspan.rs (user-defined sparse Storage<u8>)',
+    'implementation-and-oracle-only batches (no model run, no correspondence claimed): span, strspan, probes, C18 large allocations, C17 histories '
+    'longer than 2^10 pushes',
     'Section hypotheses only: std Vec growth contract (Resource/Alloc.v), inner byte region total (codec_region_ok); Huffman code lengths '
     '<= 57 is the mergeable premise, proved for statistics below 1 548 008 755 920 counted symbols',
 ]
